@@ -210,6 +210,15 @@ CHECKS['C30'] = dict(
     note='Not decided: pyo3 extraction semantics, NaN/inf rendering, equality of values read back.',
     design='§4 C30')
 
+CHECKS['C31'] = dict(
+    technique='dominance of the validators over the importers; loop-shape rule for the JSON key validator; per-arm literal rendering table over serde_json::Value (T8) with quote-doubling/quoting sinks (T7); writer/reader alphabet agreement for CSV; Debug-format and constant-header detection on the export producer',
+    text='Decides that file-derived column names are validated for every record before an INSERT is generated, that every file-derived value '
+         'enters the statement as a quoted literal with doubled quotes or as a JSON number/boolean/null chosen by JSON type, that the generated '
+         'statement is the fixed INSERT template, that the CSV reader understands exactly the quoting the CSV writer produces, and whether the '
+         'exported cells are value text. Necessary conditions of safe import and of the export/import round trip for all files.',
+    note='Not decided: value equality after INSERT coercion (CSV fields are always text literals), file-system errors.',
+    design='§4 C31')
+
 NOT_APPLICABLE = {
     'C01': 'Equality of result multisets with a reference engine is a value-level semantic equivalence over all queries and data; no structural necessary condition beyond those claimed under C06/C21/C24 exists and a static rule cannot stand in for an oracle.',
     'C03': 'Columnar-vs-row agreement is determined by computed values (empty input, NULL handling, sums); a rejected shape falls back safely, so no table-agreement obligation exists whose breach necessarily changes results.',
